@@ -50,7 +50,10 @@ fn gen(t: &mut Tape, _tier: Tier) -> Scenario {
     let dict = if sc.i("lying_header") == 1 { 0x1000_0000u64.max(b.dict) } else { b.dict };
     let produced = b.expect.len() as u64;
     let need = dict.min(produced);
-    let m: u64 = match t.below(9) {
+    let m: u64 = if t.below(12) == 0 {
+        // limits beyond 32 bits: a needed window is always below 2^32, so these are "no limit"
+        [1u64 << 32, (1 << 32) + 1, 1 << 33, 1 << 40, u64::MAX - 0xFFFF_FFFF, (1 << 32) + need.saturating_sub(1)][t.below(6) as usize]
+    } else { match t.below(9) {
         0 => 0,
         1 => need.saturating_sub(1),
         2 => need,
@@ -60,7 +63,7 @@ fn gen(t: &mut Tape, _tier: Tier) -> Scenario {
         6 => u64::MAX,
         7 => t.range(0, need + 2),
         _ => need.saturating_sub(t.range(1, 50)),
-    };
+    } };
     opts.memlimit = Some(m.min(usize::MAX as u64) as usize);
     if which == 2 {
         let n = sc.b("input").len();
@@ -196,7 +199,7 @@ fn exec(sc: &Scenario, ctx: &mut Ctx) -> Vec<Violation> {
 pub static C10: SimpleProp = SimpleProp {
     id: "C10",
     level: "exploration",
-    rule: "one evaluation = one pair (unlimited run, run with memlimit m) of a valid reference-encoded stream, m in {0, need-1, need, need+1, dict-1, dict, max, random} with need = min(dictionary, bytes produced), through lzma_decompress_with_options, Stream under a random history, or the raw decoder (dictionary 1..5000); m >= need: identical verdict and bytes; m < need: Err and delivered bytes are a model prefix; heap peak of the limited run (metering allocator) <= literal table + 2*max(min(m,need),8) + 16 KiB (only allocations made while library code runs are metered); a fifth of the header-carrying streams are re-headed to announce a 256 MiB-4 GiB dictionary (and, for size-bounded ones, a 1 GiB size); non-trivial = need > 0; distinct by scenario hash",
+    rule: "one evaluation = one pair (unlimited run, run with memlimit m) of a valid reference-encoded stream, m in {0, need-1, need, need+1, dict-1, dict, max, random, and values >= 2^32 whose low 32 bits are small} with need = min(dictionary, bytes produced), through lzma_decompress_with_options, Stream under a random history, or the raw decoder (dictionary 1..5000); m >= need: identical verdict and bytes; m < need: Err and delivered bytes are a model prefix; heap peak of the limited run (metering allocator) <= literal table + 2*max(min(m,need),8) + 16 KiB (only allocations made while library code runs are metered); a fifth of the header-carrying streams are re-headed to announce a 256 MiB-4 GiB dictionary (and, for size-bounded ones, a 1 GiB size); non-trivial = need > 0; distinct by scenario hash",
     runs_quick: 60_000,
     runs_thorough: 3_000_000,
     both_profiles: false,
